@@ -31,6 +31,7 @@ const (
 	vTagBase     = uint64(0x7000_0000_0000) // values read from exec ctx / module ctx function slots
 	vMemBase0    = uint64(0x4000_0000_0000)
 	vMemEpoch    = uint64(1) << 36 // the memory "moves" by this much whenever it may have been reallocated
+	vExtGlobBase = uint64(0x3000_0000_0000) // storage of globals owned by other instances
 )
 
 const (
@@ -60,6 +61,10 @@ type vWorld struct {
 	memMax  uint32 // pages
 	epoch   uint64
 	globals []vVal
+	// imported globals: slot i of the module context holds a POINTER to the owner's storage; extOwner[i] says which
+	// external cell import i refers to (two imports of one exported global share a cell)
+	extOwner []int
+	ext      []vVal
 	closed  uint64 // module exit code word (non-zero: closed)
 	calls   []vHostCall
 	hostRes func(index uint32, k int) uint64 // result k of the next call to imported function index
@@ -147,8 +152,14 @@ func (w *vWorld) loadCtx(addr uint64, width uint64) (uint64, bool) {
 			cell = w.memBase()
 		case w.off.LocalMemoryBegin >= 0 && off == w.off.LocalMemoryBegin+8:
 			cell = uint64(len(w.mem)) // the length is a 64-bit field: 2^32 at 65536 pages
-		case w.off.GlobalsBegin >= 0 && off >= w.off.GlobalsBegin && off < w.off.GlobalsBegin+wazevoapi.Offset(16*len(w.globals)):
+		case w.off.GlobalsBegin >= 0 && off >= w.off.GlobalsBegin && off < w.off.GlobalsBegin+wazevoapi.Offset(16*len(w.extOwner)):
+			// an imported global: the slot holds the address of the owner's cell
 			i := (off - w.off.GlobalsBegin) / 16
+			if (off-w.off.GlobalsBegin)%16 == 0 {
+				cell = vExtGlobBase + 16*uint64(w.extOwner[i])
+			}
+		case w.off.GlobalsBegin >= 0 && off >= w.off.GlobalsBegin+wazevoapi.Offset(16*len(w.extOwner)) && off < w.off.GlobalsBegin+wazevoapi.Offset(16*(len(w.extOwner)+len(w.globals))):
+			i := (off-w.off.GlobalsBegin)/16 - wazevoapi.Offset(len(w.extOwner))
 			if (off-w.off.GlobalsBegin)%16 == 0 {
 				cell = w.globals[i].lo
 			} else {
@@ -169,6 +180,14 @@ func (w *vWorld) loadCtx(addr uint64, width uint64) (uint64, bool) {
 	}
 	if d := addr - (vTagBase + 0x30000); d < 0x20000 {
 		return addr, true // an element of a listener trampoline array: identified by its own address
+	}
+	if d := addr - vExtGlobBase; d < uint64(16*len(w.ext)) {
+		c := w.ext[d/16]
+		v := c.lo
+		if d%16 >= 8 {
+			v = c.hi
+		}
+		return (v >> (8 * (d & 7))) & widthMask(width), true
 	}
 	if d := addr - vExecCtxBase; d < 4096 {
 		if wazevoapi.Offset(d&^7) == wazevoapi.ExecutionContextOffsetStackBottomPtr {
@@ -215,8 +234,8 @@ func (w *vWorld) load(addr, width uint64) uint64 {
 func (w *vWorld) store(addr, width, v uint64) {
 	if d := addr - vModCtxBase; d < 1<<20 {
 		off := wazevoapi.Offset(d)
-		if w.off.GlobalsBegin >= 0 && off >= w.off.GlobalsBegin && off < w.off.GlobalsBegin+wazevoapi.Offset(16*len(w.globals)) {
-			i := (off - w.off.GlobalsBegin) / 16
+		if lo := w.off.GlobalsBegin + wazevoapi.Offset(16*len(w.extOwner)); w.off.GlobalsBegin >= 0 && off >= lo && off < lo+wazevoapi.Offset(16*len(w.globals)) {
+			i := (off - lo) / 16
 			switch {
 			case (off-w.off.GlobalsBegin)%16 == 0 && width == 8:
 				w.globals[i].lo = v
@@ -237,6 +256,20 @@ func (w *vWorld) store(addr, width, v uint64) {
 			w.exitWord = v // machine code stores the exit code here before the exit sequence
 		}
 		return // other stores: saved state bookkeeping
+	}
+	if d := addr - vExtGlobBase; d < uint64(16*len(w.ext)) {
+		c := &w.ext[d/16]
+		switch {
+		case d%16 == 0 && width == 8:
+			c.lo = v
+		case d%16 == 0 && width == 4:
+			c.lo = c.lo&^0xffffffff | v&0xffffffff
+		case d%16 == 8 && width == 8:
+			c.hi = v
+		default:
+			w.unsupported("partial store to an imported global")
+		}
+		return
 	}
 	d, ok := w.memAccess(addr, width)
 	if !ok {
